@@ -186,6 +186,7 @@ DefS ==
      cla    |-> ClInit(-1),
      owe    |-> 0,        \* trace position of the cause that obliges E to fail the stream (0: nothing owed)
      oweRule |-> "",
+     oweKind |-> "", oweWhy |-> {},   \* kind and named defects of the message that caused it (reported with the violation)
      oweEs  |-> FALSE,    \* the cause carried END_STREAM
      oweAlt |-> 0,        \* a pushed request: failing the stream that carried the PUSH_PROMISE counts as well
      failed |-> FALSE,    \* RST_STREAM written by E or handed to E
@@ -236,14 +237,19 @@ AddBlock(m, s, kind, why0, es, alt, l, ph2, cla2) ==
        ELSE LET m1 == Hit(Note(m0, "malformed_" \o kind), "C13.no_deliver_malformed") IN
             IF own /\ Live(m, IF alt # 0 THEN alt ELSE s, x)
             THEN SetS(Hit(m1, "C13.fail_malformed"), s,
-                      [x1 EXCEPT !.owe = l, !.oweRule = "C13.fail_malformed", !.oweEs = es, !.oweAlt = alt])
+                      [x1 EXCEPT !.owe = l, !.oweRule = "C13.fail_malformed", !.oweEs = es, !.oweAlt = alt,
+                                !.oweKind = kind, !.oweWhy = why])
             ELSE SetS(m1, s, x1)
 
+\* kind of the message whose body E receives / sends
+MsgIn(m)  == IF m.role = "s" THEN "request" ELSE "response"
+MsgOut(m) == IF m.role = "c" THEN "request" ELSE "response"
 \* the body of the message received on s turned out to disagree with its content-length
 ClBad(m, s, x, es, l) ==
     LET m1 == Hit(Note(m, "cl_mismatch"), "C13.cl_no_clean_end") IN
     IF Live(m, s, x)
-    THEN SetS(Hit(m1, "C13.cl_fail"), s, [x EXCEPT !.bad = TRUE, !.owe = l, !.oweRule = "C13.cl_fail", !.oweEs = es])
+    THEN SetS(Hit(m1, "C13.cl_fail"), s, [x EXCEPT !.bad = TRUE, !.owe = l, !.oweRule = "C13.cl_fail", !.oweEs = es,
+                                                   !.oweKind = MsgIn(m), !.oweWhy = {"cl_mismatch"}])
     ELSE SetS(m1, s, [x EXCEPT !.bad = TRUE])
 
 InHeaders(m, f, l) ==
@@ -333,7 +339,7 @@ OutBlock(m, f, l) ==
     IN IF ~f.hdr.ok THEN SetS(Note(m, "out_block_skipped"), s, [x EXCEPT !.oph = "skip"])   \* C10 territory
        ELSE IF x.oph \in {"done", "skip"} THEN Note(m, "out_block_skipped")                  \* C04 territory
        ELSE IF isPP \/ kind = "interim" \/ a1.st = "open" \/ a0.cl < 0 THEN m2
-       ELSE Check(m2, "C13.emit_cl_match", a1.st = "ok", l, s, [cl |-> a0.cl, got |-> a1.got])
+       ELSE Check(m2, "C13.emit_cl_match", a1.st = "ok", l, s, [kind |-> MsgOut(m), cl |-> a0.cl, got |-> a1.got])
 
 OutData(m, f, l) ==
     LET s == f.sid
@@ -344,7 +350,7 @@ OutData(m, f, l) ==
        ELSE LET a1 == ClData(x.ocla, f.dlen, f.es)
                 m1 == SetS(m, s, [x EXCEPT !.ocla = a1, !.oph = IF f.es THEN "done" ELSE "body"])
             IN IF x.ocla.cl < 0 \/ a1.st = "open" \/ x.ocla.st # "open" THEN m1
-               ELSE Check(m1, "C13.emit_cl_match", a1.st = "ok", l, s, [cl |-> x.ocla.cl, got |-> a1.got])
+               ELSE Check(m1, "C13.emit_cl_match", a1.st = "ok", l, s, [kind |-> MsgOut(m), cl |-> x.ocla.cl, got |-> a1.got])
 
 StepOut(m, f, l) ==
     IF f.hb THEN OutBlock(m, f, l)
@@ -385,7 +391,7 @@ Deliver(m, s, kind, l) ==
 CleanEnd(m, s, call, l) ==
     LET x == S(m, s) IN
     IF x.cla.st = "bad"
-    THEN Viol(m, "C13.cl_no_clean_end", l, s, [call |-> call, cl |-> x.cla.cl, got |-> x.cla.got])
+    THEN Viol(m, "C13.cl_no_clean_end", l, s, [kind |-> MsgIn(m), call |-> call, cl |-> x.cla.cl, got |-> x.cla.got])
     ELSE IF x.cla.cl >= 0 /\ x.cla.st = "ok" THEN Note(m, "clean_end_with_cl") ELSE m
 
 \* an error returned to the application fails the stream when the cause carried END_STREAM and nobody is left
@@ -413,7 +419,9 @@ StepQ(m, e, l) ==
                  IF i = 0 THEN m
                  ELSE LET s == owing[i]
                           x == m.st[s]
-                      IN SetS(Viol(F[i - 1], x.oweRule, l, s, [since |-> x.owe]), s, [x EXCEPT !.owe = 0])
+                      IN SetS(Viol(F[i - 1], x.oweRule, l, s,
+                                   [since |-> x.owe, kind |-> x.oweKind, why |-> SetToSeq(x.oweWhy)]),
+                              s, [x EXCEPT !.owe = 0])
          IN F[Len(owing)]
 
 Step(m, e, l) ==
